@@ -530,28 +530,43 @@ def _rule_r6(text, log):
                '        __r6_out })') % (E, pat, E, body)
         out = out[:mm.start()] + rep + out[close + 1 + tail.end():]
         n += 1
-    # (i) E.par_iter().any(|x| BODY)  (rayon: some element satisfies BODY) -> loop with early exit
+    # (i) E.par_iter()[.filter(|y| P)].any(|x| BODY)  (rayon: some element [satisfying P] satisfies BODY) -> loop with early exit
     while True:
         m = rs.mask(out)
-        mm = re.search(r'([a-z_][a-z0-9_]*)\s*\.par_iter\(\)\s*\.any\(', m)
+        mm = re.search(r'([a-z_][a-z0-9_]*)\s*\.par_iter\(\)\s*\.(any|filter)\(', m)
         if not mm:
             break
+        E = mm.group(1)
+        pred = None
         op = mm.end() - 1
         close = rs.match_brace(m, op)
+        if mm.group(2) == 'filter':
+            finner = out[op + 1:close]
+            fm = re.match(r'\s*\|\s*([a-z_][a-z0-9_]*)\s*\|\s*', finner)
+            am = re.match(r'\s*\.any\(', m[close + 1:])
+            if not fm or not am:
+                raise Unsupported('R6i: par_iter().filter(..) not followed by .any(..)')
+            pred = (fm.group(1), finner[fm.end():].strip())
+            op = close + 1 + am.end() - 1
+            close = rs.match_brace(m, op)
         inner = out[op + 1:close]
         cm = re.match(r'\s*\|\s*([a-z_][a-z0-9_]*)\s*\|\s*', inner)
         if not cm:
             raise Unsupported('R6i: closure not recognised')
         x, body = cm.group(1), inner[cm.end():].strip()
-        E = mm.group(1)
+        if pred is None:
+            test = 'let __r6_b: bool = %s;' % body
+        else:
+            # the filter closure sees `&&T`; auto-deref makes the same method calls valid on `&T`
+            test = 'let %s = %s; let __r6_p: bool = %s; let __r6_b: bool = if __r6_p { %s } else { false };' % (pred[0], x, pred[1], body)
         rep = ('({ let mut __r6_any = false; let mut __r6_i: usize = 0;\n'
                '            while __r6_i < %s.len() && !__r6_any {\n'
                '                let %s = &%s[__r6_i];\n'
-               '                let __r6_b: bool = %s;\n'
+               '                %s\n'
                '                if __r6_b { __r6_any = true; }\n'
                '                __r6_i += 1;\n'
                '            }\n'
-               '            __r6_any })') % (E, x, E, body)
+               '            __r6_any })') % (E, x, E, test)
         out = out[:mm.start()] + rep + out[close + 1:]
         n += 1
     # (k) E.par_iter().find_map_any(|x| BODY).unwrap_or_else(|| ALT)   (rayon: Some(f(x)) for SOME x with f(x) = Some,
